@@ -179,6 +179,56 @@ func TestC01(t *testing.T) {
 			t.Fatalf("C01/paths: %v", err)
 		}
 	})
+
+	// (iv) guided walks: every step chosen to select something, started from
+	// the root, an inner context node, a mixed-kind node-set variable or a
+	// parenthesised union; abbreviated or not
+	runProp(t, "walks", 16000, 200000, func(t *rapid.T) {
+		ev := xmodel.Gen(t, docCfg())
+		p, err := prepareDoc(ev)
+		if err != nil {
+			st.Discard("document-not-mirrored")
+			return
+		}
+		ns := genBindings(t)
+		elems, attrs, targets := docNames(p.doc)
+		ctx := p.doc.Root
+		if rapid.Bool().Draw(t, "innerCtx") {
+			ctx = p.doc.All[rapid.IntRange(0, len(p.doc.All)-1).Draw(t, "ctx")]
+		}
+		c := &evalCase{Events: ev, Ctx: ctx.Ref(), NS: ns, Vars: []varBinding{mixedNodeVar(t, p.doc, "w")}}
+		_, env, err := c.settings(p)
+		if err != nil {
+			t.Fatalf("harness: %v", err)
+		}
+		g := &xast.G{T: t, Env: xast.GenEnv{ElemNames: queryable(elems), AttrNames: queryable(attrs), PITargets: targets, Prefixes: prefixesOf(ns), NoLang: true, NodeVars: []string{"w"}}}
+		c.Expr = genWalk(t, g, env, ctx, ctx == p.doc.Root, 4, 0)
+		c.Text = xast.Render(c.Expr, xast.RapidChooser{T: t}, xast.Style{Abbrev: rapid.Bool().Draw(t, "abbrev")})
+		out, why, err := evalPrepared(c, p)
+		if out == discarded {
+			st.Discard(why)
+			return
+		}
+		st.Eval(1)
+		if len(lastRef.Nodes) > 0 {
+			axes := ""
+			for _, s := range c.Expr.Steps {
+				axes += s.Axis + "/"
+			}
+			st.Class("walk-ends-on " + c.Expr.Steps[len(c.Expr.Steps)-1].Axis)
+			if c.Expr.Base != nil {
+				st.Class("walk-from " + c.Expr.Base.K)
+			}
+			st.NonTrivial(c.Text + fmt.Sprint(ev))
+			if len(ev) <= 24 {
+				st.Sample(c.Text+fmt.Sprint(ev), map[string]any{"events": eventStrings(ev), "context": c.Ctx, "expr": c.Text, "w": c.Vars[0].Nodes, "expected": refsOfNodes(lastRef.Nodes)})
+			}
+		}
+		if err != nil {
+			recordFailure("C01", "c01-path", c, err.Error())
+			t.Fatalf("C01/walks: %v", err)
+		}
+	})
 }
 
 // shapeKey summarises where a node sits (depth, sibling index, siblings) so
